@@ -14,6 +14,7 @@ var gens = map[string]func(props.Ctx) *report.Report{
 	"C20": props.C20,
 	"C01": props.C01,
 	"C02": props.C02,
+	"C03": props.C03,
 	"CALC": props.CalcAll,
 	"HIST": props.HistAll,
 }
